@@ -146,7 +146,10 @@ How `C01_gen_sim_defs` is proved:
 * `C01_gen_sim_partial` for `stripB b` does the rest.
 What is missing for the full statement:
 * calls in the arguments of `printf` (values already queued for the `printf` would have to survive
-  the call), and value calls of routines that may run off their end (see `V` above);
+  the call: the relation would need the queue of the caller as a base below the callee's own, and
+  every `printf` run above a non-empty base would have to take exactly as many values as it has
+  fields — the real parser reads exactly that many, the fragment allows fewer), and value calls of
+  routines that may run off their end (see `V` above);
 Restrictions of the fragment that are forced by the MODEL (source semantics and machine disagree
 outside them; concrete scripts are at the end of this file):
 * `Sem` does not model the `result` register, the generated code uses it as scratch: a script
